@@ -347,6 +347,9 @@ def values_equal(it, a, b):
         e = values_equal(it, ea, eb)
         return z3.And(la.n == lb.n,
                       z3.ForAll([i], z3.Implies(z3.And(i >= 0, i < la.n), zbool(e))))
+    if isinstance(a, SSet) and isinstance(b, SSet) and getattr(a, 'exact', False) and getattr(b, 'exact', False):
+        # both sets are given by an exact enumeration: mutual inclusion
+        return z3.And(a.forall(lambda y: b.has(y)), b.forall(lambda y: a.has(y)))
     if isinstance(a, Sym) or isinstance(b, Sym):
         # different static types
         if (isinstance(a, (SSet, SMap, SOpaque)) or isinstance(b, (SSet, SMap, SOpaque))):
@@ -356,6 +359,31 @@ def values_equal(it, a, b):
         return bool(a == b)
     except Exception:
         return False
+
+
+def _order_facts(it, t):
+    """
+    str_lt is a strict total order: ground instances of irreflexivity, trichotomy and transitivity over the string
+    terms that have been compared on this path (no quantifiers, so refutations come with models).
+    """
+    if it.quant_depth:
+        return
+    terms = it.path.__dict__.setdefault('ordered_strings', [])
+    key = t.get_id()
+    if any(u.get_id() == key for u in terms):
+        return
+    if len(terms) >= 12:
+        return          # beyond this the cubic number of instances is not worth it: fewer facts, never wrong ones
+    it.path.assume(z3.Not(str_lt(t, t)))
+    for u in terms:
+        it.path.assume(z3.Or(str_lt(t, u), str_lt(u, t), t == u))
+        it.path.assume(z3.Not(z3.And(str_lt(t, u), str_lt(u, t))))
+        it.path.assume(z3.Implies(t == u, z3.And(z3.Not(str_lt(t, u)), z3.Not(str_lt(u, t)))))
+    for u in terms:
+        for v in terms:
+            for x, y, w in ((t, u, v), (u, t, v), (u, v, t)):
+                it.path.assume(z3.Implies(z3.And(str_lt(x, y), str_lt(y, w)), str_lt(x, w)))
+    terms.append(t)
 
 
 def compare(it, op, a, b):
@@ -390,6 +418,8 @@ def compare(it, op, a, b):
         return SBool(_num_cmp(op, za, zb))
     if is_strlike(a) and is_strlike(b):
         za, zb = strz(it, a), strz(it, b)
+        _order_facts(it, za)
+        _order_facts(it, zb)
         lt = {'<': str_lt(za, zb), '>': str_lt(zb, za),
               '<=': z3.Or(str_lt(za, zb), za == zb),
               '>=': z3.Or(str_lt(zb, za), za == zb)}[op]
